@@ -159,7 +159,17 @@ def benign(argv):
         name = os.path.basename(f) if "selftest" in f else os.path.basename(os.path.dirname(f))
         if pats and not any(p.lower() in name.lower() for p in pats):
             continue
-        work.append((f, only or available_props(), 4))
+        pids = only or available_props()
+        if not only and "seeded_benign" in f:
+            # a rework of some files: the checks of every property anchored in one of the files it touches
+            touched = set(l.split(" b/", 1)[1].strip() for l in open(f) if l.startswith("+++ b/"))
+            anchored = {}
+            with open(os.path.join(verif, "properties.jsonl")) as fh:
+                for line in fh:
+                    pr = json.loads(line)
+                    anchored[pr["id"]] = set(pr["anchors"]["files"])
+            pids = [p_ for p_ in pids if anchored.get(p_, set()) & touched] or pids
+        work.append((f, pids, 4))
     alarms = 0
     with cf.ThreadPoolExecutor(max_workers=4) as ex:
         for patch, out in ex.map(_one_benign, work):
